@@ -138,20 +138,26 @@ func runSSH(r *run) error {
 		name   string
 		file   *string // nil = anonymous
 		listed map[string]bool
+		both   bool // the listener section also sets anon_ssh
 	}
 	mk := func(name, content string, listed ...string) listenerCase {
 		l := map[string]bool{}
 		for _, x := range listed {
 			l[x] = true
 		}
-		return listenerCase{name, &content, l}
+		return listenerCase{name, &content, l, false}
 	}
 	cases := []listenerCase{
-		{"anonymous", nil, nil},
+		{"anonymous", nil, nil, false},
 		mk("empty-file", ""),
 		mk("only-comments", "# nobody\n\n   \n# still nobody\n"),
 		mk("one-key", authLine(keys[0])+"\n", keys[0].name),
 		mk("multi-key", "# team keys\n\n"+authLine(keys[1])+" alice@example\n   \n# second\n"+authLine(keys[3])+"\n"+authLine(keys[4])+" bob\n", keys[1].name, keys[3].name, keys[4].name),
+		func() listenerCase {
+			c := mk("one-key-and-anon_ssh-set", authLine(keys[0])+"\n", keys[0].name)
+			c.both = true
+			return c
+		}(),
 		mk("with-options", `command="x",no-pty `+authLine(keys[2])+" carol\n"+authLine(keys[5])+"\n", keys[2].name, keys[5].name),
 	}
 	hostKey := filepath.Join(base, "hostkey")
@@ -169,7 +175,11 @@ func runSSH(r *run) error {
 		}
 		var stderr bytes.Buffer
 		srvErr := make(chan error, 1)
-		go func() { srvErr <- verifhook.ServeSSH(ctx, ln, hostKey, akPath, mods, &stderr) }()
+		alsoAnon := ""
+		if lc.both {
+			alsoAnon = "127.0.0.1:1"
+		}
+		go func() { srvErr <- verifhook.ServeSSHListener(ctx, ln, hostKey, akPath, alsoAnon, mods, &stderr) }()
 		time.Sleep(30 * time.Millisecond)
 		select {
 		case e := <-srvErr:
@@ -210,6 +220,9 @@ func runSSH(r *run) error {
 				"rsync --server --daemon --config=" + filepath.Join(base, "x.toml") + " .", "rsync --no-such-option", "rsync --server --daemon . extra " + secretDir,
 				"rsync --daemon . --server", "rsync -- --server --daemon .", "rsync --server --daemon '", "rsync --info=help", "rsync --server --daemon --port=1 .", "scp -f /etc/passwd",
 			}
+			evil := filepath.Join(base, "evil.toml")
+			os.WriteFile(evil, []byte("[[listener]]\nanon_ssh = \"127.0.0.1:1\"\n[[module]]\nname = \"evil\"\npath = \""+secretDir+"\"\n"), 0o644)
+			lines = append(lines, "rsync --server --daemon --gokr.config="+evil+" .", "rsync --gokr.config="+evil+" --server --daemon .", "rsync --server --daemon --gokr.modulemap=evil="+secretDir+" .")
 			// random lines over the same vocabulary
 			vocab := []string{"--server", "--daemon", "--sender", "-e", "sh", "--rsh=sh", "-a", "-r", ".", secretDir + "/", "host:/p", "rsync://h/m", "-v", "--help", "--config=/x", "--no-detach", target}
 			nr := 40
@@ -249,6 +262,9 @@ func runSSH(r *run) error {
 				r.count("exec/" + class)
 				r.emit("sshexec", fmt.Sprintf("x%d", li), []string{perr, strings.Join(hexargs, ","), daemonFlag + serverFlag}, obs, class == "greeting")
 				detail := map[string]any{"command": line, "class": class, "first_bytes": clipStr(string(first), 200), "stderr": tailStr(stderr.String(), 400)}
+				if class == "greeting" && bytes.Contains(first, []byte("evil")) {
+					r.oracleFail(fmt.Sprintf("ssh-exec-%d", li), "an anonymous SSH session made the daemon serve a module that is not configured: "+line, detail)
+				}
 				if bytes.Contains(first, []byte(canary)) {
 					r.oracleFail(fmt.Sprintf("ssh-exec-%d", li), "an anonymous SSH session returned data from outside the configured modules: "+line, detail)
 				}
